@@ -243,6 +243,7 @@ type Tmpl struct {
 	Kind  string // required type kind ("struct", "int", "" any)
 	Decl  bool   // produces a top-level declaration instead of statements
 	OnlyD bool   // only meaningful inside the declaring package
+	OnlyU bool   // only meaningful in a package that imports the declaring package
 	FreeT bool   // contains a TONL-FREE type mention (poisons the once-per-file group)
 	NoImp bool   // needs nothing from the declaring package but a value (usable in a file that does not import it)
 	Make  func(b *B, t *Type, env *Env) []*Node
@@ -255,6 +256,8 @@ type Env struct {
 	Helper *Func // a function of t's package (any annotation mix)
 	Reset  *Func // a method of t (any annotation mix), pointer receiver
 	Val    *Func // a method with value receiver
+	OtherPkg  *Pkg  // another declaring package imported by the using packages (its name can be taken by a local variable)
+	OtherFunc *Func // an unannotated function of that package (keeps the import used)
 	Pass   *Func // func PassT(x *T) *T of t's package (any annotation mix): used to nest uses inside one expression
 	Getter *Func // non-nil: values are obtained through this package-local helper (the file need not import the type's package)
 }
@@ -339,6 +342,21 @@ func immTemplates() []Tmpl {
 		x := b.v()
 		return []*Node{b.stmt(x+" := "+q(t.Pkg)+env.List.Name+"()", &Use{Kind: UFuncRef, Fn: env.List, Call: true}),
 			b.stmt(x+"[0].F = 1", useT(UFieldAssign, t, "F"))}
+	}})
+	// a local variable that has the NAME of a package imported by the file (it shadows the package inside the block)
+	ts = append(ts, Tmpl{Name: "local-named-like-imported-package", Cat: IMM, Kind: "struct", OnlyU: true, Make: func(b *B, t *Type, env *Env) []*Node {
+		if env.OtherPkg == nil || env.Getter != nil {
+			x, a := acquire(b, t, env)
+			return []*Node{a, b.stmt(x+".F = 1", useT(UFieldAssign, t, "F")), b.stmt("_ = " + x)}
+		}
+		nm := "‹" + env.OtherPkg.Path + "›"
+		c, u := callNew(t, env)
+		blk := &Node{Pre: []*Line{b.line("{")}, Post: []*Line{b.line("}")}}
+		blk.Kids = []*Node{b.stmt(nm+" := "+c, u), b.stmt(nm+".F = 1", useT(UFieldAssign, t, "F")), b.stmt(nm+".S[0] = 2", useT(UFieldIndexAssign, t, "S")), b.stmt(nm+".F++", useT(UFieldIncDec, t, "F")), b.stmt(nm+"."+env.Reset.Name+"()", &Use{Kind: UMethodRef, Fn: env.Reset, Call: true}), b.stmt("_ = " + nm)}
+		for _, k := range blk.Kids {
+			k.Pre[0].Feature = "local-named-like-package"
+		}
+		return []*Node{b.stmt("_ = "+q(env.OtherPkg)+env.OtherFunc.Name, &Use{Kind: UFuncRef, Fn: env.OtherFunc}), blk}
 	}})
 	// two field names declared together share one @mutable doc comment
 	ts = append(ts, simple("mut-shared-decl-first", UFieldAssign, "P", func(x string) string { return x + ".P = 1" }, false, ""))
@@ -610,6 +628,17 @@ func Nestings() []CtxKind {
 		{Name: "closure", Wrap: func(b *B, body []*Node) []*Node { return []*Node{block(b, "func() {", "}()", body)} }},
 		{Name: "defer", Wrap: func(b *B, body []*Node) []*Node { return []*Node{block(b, "defer func() {", "}()", body)} }},
 		{Name: "go", Wrap: func(b *B, body []*Node) []*Node { return []*Node{block(b, "go func() {", "}()", body)} }},
+		{Name: "assigned-closure", Wrap: func(b *B, body []*Node) []*Node {
+			x := b.v()
+			return []*Node{block(b, x+" := func() {", "}", body), b.stmt(x + "()")}
+		}},
+		{Name: "reassigned-closure", Wrap: func(b *B, body []*Node) []*Node {
+			x := b.v()
+			return []*Node{b.stmt("var " + x + " func(int)"), block(b, x+" = func(int) {", "}", body), b.stmt(x + "(1)")}
+		}},
+		{Name: "closure-argument", Wrap: func(b *B, body []*Node) []*Node {
+			return []*Node{block(b, "func(f func()) { f() }(func() {", "})", body)}
+		}},
 		{Name: "if-closure-for", Wrap: func(b *B, body []*Node) []*Node {
 			return []*Node{block(b, "if true {", "}", []*Node{block(b, "func() {", "}()", []*Node{block(b, "for i := 0; i < 1; i++ {", "}", body)})})}
 		}},
